@@ -193,9 +193,17 @@ func build(race bool) *buildInfo {
 	if err != nil {
 		die2("instrumenter failed on the current tree: %v", err)
 	}
-	// fingerprint of the instrumented sources
+	// fingerprint of the tree under test: instrumented sources + the codec packages
 	h := sha256.New()
 	files, _ := filepath.Glob(filepath.Join(scratch, "ov", "*.go"))
+	for _, d := range []string{"frame", "message", "dialect", "streamwriter", "timednetconn", "tlog", "x25"} {
+		more, _ := filepath.Glob(filepath.Join(repoDir, "pkg", d, "*.go"))
+		for _, m := range more {
+			if !strings.HasSuffix(m, "_test.go") {
+				files = append(files, m)
+			}
+		}
+	}
 	sort.Strings(files)
 	for _, f := range files {
 		b, _ := os.ReadFile(f)
